@@ -1013,13 +1013,16 @@ pub fn run_case(c: &Value, seed: u64, idx: u64) -> (String, Option<String>) {
                 // a well-formed encoding in which the named scalar slots carry the given 256-bit values (16 limbs of 16 bits, least
                 // significant first): a value or an error, and a value re-encodes to exactly its input
                 let t = u("t");
-                let params = RangeParameters::<P>::init(4, 1, pedersen_std(t)).unwrap();
-                let bl: Vec<Scalar> = (0..t).map(|k| hash_scalar(&[b"ds", &(k as u64).to_le_bytes()])).collect();
-                let cm = params.pc_gens().commit(&Scalar::from(5u64), &bl).unwrap();
-                let st = RangeStatement::init(params, vec![cm], vec![None], None).unwrap();
-                let w = RangeWitness::init(vec![CommitmentOpening::new(5, bl)]).unwrap();
-                let mut rng = ChaCha12Rng::seed_from_u64(77);
-                let mut bytes = RangeProof::<P>::prove_with_rng(&mut Transcript::new(b"ds"), &st, &w, &mut rng).unwrap().to_bytes();
+                thread_local! { static BASE: std::cell::RefCell<std::collections::HashMap<usize, Vec<u8>>> = std::cell::RefCell::new(Default::default()); }
+                let mut bytes = BASE.with(|b| b.borrow_mut().entry(t).or_insert_with(|| {
+                    let params = RangeParameters::<P>::init(4, 1, pedersen_std(t)).unwrap();
+                    let bl: Vec<Scalar> = (0..t).map(|k| hash_scalar(&[b"ds", &(k as u64).to_le_bytes()])).collect();
+                    let cm = params.pc_gens().commit(&Scalar::from(5u64), &bl).unwrap();
+                    let st = RangeStatement::init(params, vec![cm], vec![None], None).unwrap();
+                    let w = RangeWitness::init(vec![CommitmentOpening::new(5, bl)]).unwrap();
+                    let mut rng = ChaCha12Rng::seed_from_u64(77);
+                    RangeProof::<P>::prove_with_rng(&mut Transcript::new(b"ds"), &st, &w, &mut rng).unwrap().to_bytes()
+                }).clone());
                 for sl in c["slots"].as_array().unwrap() {
                     let e = sl["e"].as_u64().unwrap() as usize;
                     for (i, limb) in sl["v"].as_array().unwrap().iter().enumerate() {
